@@ -57,6 +57,8 @@ type c3arg struct {
 	nums  []uint64
 	align int64 // -1: none
 	ixs   []c3arg
+	has   bool      // Y<ident> / U<ident>: an identifier is present
+	labs  []c3ident // B<ident>,<ident>…
 	kw    int // W<i>: position in the keyword list of the slot; O / O<i>: -1 or the position (optional keyword)
 }
 
@@ -194,6 +196,20 @@ func c3Inst(named map[string]*types.StructType, s string) c3inst {
 						panic("harness: bad align " + a)
 					}
 					arg.align = k
+				}
+			case 'X':
+				arg.lab = c3Ident(a[1:])
+			case 'Y', 'U':
+				// `Y` / `U`: no parent pad (`none`) / unwind to caller; `Y<ident>` / `U<ident>`: a local / a label
+				if len(a) > 1 {
+					arg.lab = c3Ident(a[1:])
+					arg.has = true
+				}
+			case 'B':
+				if len(a) > 1 {
+					for _, t := range strings.Split(a[1:], ",") {
+						arg.labs = append(arg.labs, c3Ident(t))
+					}
 				}
 			case 'W':
 				k, err := strconv.Atoi(a[1:])
@@ -545,6 +561,18 @@ func core3Prepare(named map[string]*types.StructType, a []string) (*ir.Func, fun
 				obj = &ir.TermResume{}
 			case in.row == 87:
 				obj = &ir.InstVAArg{ArgType: in.args[1].ty}
+			case in.row == 91:
+				obj = &ir.TermIndirectBr{}
+			case in.row == 92:
+				obj = &ir.TermCatchSwitch{}
+			case in.row == 93:
+				obj = &ir.TermCatchRet{}
+			case in.row == 94:
+				obj = &ir.TermCleanupRet{}
+			case in.row == 95:
+				obj = &ir.InstCatchPad{}
+			case in.row == 96:
+				obj = &ir.InstCleanupPad{}
 			case in.row == 88:
 				obj = &ir.InstFence{Ordering: c3Orderings[in.args[0].kw]}
 			case in.row == 89:
@@ -587,6 +615,13 @@ func core3Prepare(named map[string]*types.StructType, a []string) (*ir.Func, fun
 			p := &tyParser{s: o.konst, named: named}
 			return p.constant(t)
 		}
+		local := func(i c3ident) value.Value {
+			v, ok := locals[key(i)]
+			if !ok {
+				panic("harness: undefined local in descriptor")
+			}
+			return v
+		}
 		block := func(i c3ident) *ir.Block {
 			b, ok := blocks[key(i)]
 			if !ok {
@@ -624,6 +659,42 @@ func core3Prepare(named map[string]*types.StructType, a []string) (*ir.Func, fun
 				}
 				if as[3].align >= 0 {
 					x.Align = ir.Align(as[3].align)
+				}
+			case *ir.TermIndirectBr:
+				x.Addr = operand(as[0].ty, as[0].op)
+				for _, l := range as[1].labs {
+					x.ValidTargets = append(x.ValidTargets, block(l))
+				}
+			case *ir.TermCatchSwitch:
+				x.ParentPad = constant.None
+				if as[0].has {
+					x.ParentPad = local(as[0].lab)
+				}
+				for _, l := range as[1].labs {
+					x.Handlers = append(x.Handlers, block(l))
+				}
+				if as[2].has {
+					x.DefaultUnwindTarget = block(as[2].lab)
+				}
+			case *ir.TermCatchRet:
+				x.CatchPad, x.Target = local(as[0].lab), block(as[1].lab)
+			case *ir.TermCleanupRet:
+				x.CleanupPad = local(as[0].lab)
+				if as[1].has {
+					x.UnwindTarget = block(as[1].lab)
+				}
+			case *ir.InstCatchPad:
+				x.CatchSwitch = local(as[0].lab)
+				for _, ix := range as[1].ixs {
+					x.Args = append(x.Args, operand(ix.ty, ix.op))
+				}
+			case *ir.InstCleanupPad:
+				x.ParentPad = constant.None
+				if as[0].has {
+					x.ParentPad = local(as[0].lab)
+				}
+				for _, ix := range as[1].ixs {
+					x.Args = append(x.Args, operand(ix.ty, ix.op))
 				}
 			case *ir.InstFence:
 			case *ir.InstCmpXchg:
